@@ -451,7 +451,29 @@ class ExprMixin:
             vals = [self.ev(v, st) for v in node.values]
             ty = TRecord(names, [v.ty for v in vals])
             return Val(ty, self.S.sort(ty).mk(*[v.z for v in vals]))
-        raise Unsupported("dict literal with non-constant keys", node)
+        # {k1: v1, k2: v2, ...} with keys of one scalar type (e.g. enum members): a finite map built by stores
+        keys = [self.ev(k, st) for k in node.keys if k is not None]
+        vals = [self.ev(v, st) for v in node.values]
+        if len(keys) != len(vals) or not keys:
+            raise Unsupported("dict literal with ** unpacking", node)
+        kt, vt = keys[0].ty, vals[0].ty
+        for k in keys[1:]:
+            kt = self.unify(kt, k.ty)
+        for v in vals[1:]:
+            vt = self.unify(vt, v.ty)
+        if kt.kind not in ("Enum", "Int", "Str") or vt.kind in ("Poison", "EmptyList", "None"):
+            raise Unsupported("dict literal with keys of type %r / values of type %r" % (kt, vt), node)
+        from .vtypes import TDict
+        dt = TDict(kt, vt)
+        sd = self.S.sort(dt)
+        ks, vs = self.S.sort(kt), self.S.sort(vt)
+        dom = z3.K(ks, z3.BoolVal(False))
+        val = self.empty_array_kv(ks, vs)
+        for k, v in zip(keys, vals):              # later entries win, as in python
+            kz = self.coerce(k, kt, node).z
+            dom = z3.Store(dom, kz, z3.BoolVal(True))
+            val = z3.Store(val, kz, self.coerce(v, vt, node).z)
+        return Val(dt, sd.mk(dom, val))
 
     def ev_Subscript(self, node, st):
         base = self.ev(node.value, st)
